@@ -253,6 +253,7 @@ func cliPart(r *mon.Run) {
 		r.Guard(c.name(), func() { runCLI(r, e, i, c, viol) })
 	})
 	col.flush(r)
+	multiPart(r, e)
 	if r.Counter("cli_runs") < 300 {
 		r.Inconclusive("CLI part ran only %d processes", r.Counter("cli_runs"))
 	}
